@@ -189,6 +189,7 @@ func (e *ExecutionEngine) Execute(ctx context.Context, operation *graphql.Reques
 				astvalidation.DeferStreamHaveUniqueLabels(),
 				astvalidation.DirectivesAreInValidLocations(),
 				astvalidation.DirectivesAreUniquePerLocation(),
+				astvalidation.DirectivesAreDefined(),
 				astvalidation.StreamAppliedToListFieldsOnly()),
 		)
 		if err != nil {
